@@ -9,7 +9,7 @@ Translation (Rust expression over `F: Float` -> Coq term over `binary_float prec
     a + b, a - b, a * b, a / b   ->  Bplus / Bminus / Bmult / Bdiv mode_NE a b        (left associative, usual precedence)
     -a                           ->  Bopp a
     a <= b, a < b                ->  Bleb a b, Bltb a b          (a >= b, a > b are swapped)
-    self.f, local x              ->  variable f, x
+    self.f, self.g.f, local x    ->  variable f, g_f, x
     F::one(), F::from(1.).unwrap() -> Bone;  F::zero() -> B754_zero false;  F::infinity() -> B754_infinity false
     any method call on a value (ln, exp, powf, tan, recip ...)  ->  an opaque float variable opq<k>, numbered by first occurrence
 Parameters of the generated definition are its variables in order of first occurrence.
@@ -135,8 +135,11 @@ class Lower:
         if k == "var":
             return self.var(e[1])
         if k == "field":
-            if e[1] == ("var", "self"):
-                return self.var(e[2])
+            names, x = [e[2]], e[1]
+            while x[0] == "field":
+                names.append(x[2]); x = x[1]
+            if x == ("var", "self"):              # self.f -> f ; self.g.f -> g_f
+                return self.var("_".join(reversed(names)))
             return self.opaque(e)
         if k == "neg":
             return "(Bopp %s)" % self.go(e[1])
@@ -276,6 +279,11 @@ SITES = [
     ("unit_ball_accept", "unit_ball.rs", "UnitBall", "sample", sel_if_break),
     ("dirichlet_stick_out", "multi/dirichlet.rs", "DirichletFromBeta", "sample_to_slice", sel_assign(["*", "s"])),
     ("dirichlet_stick_acc", "multi/dirichlet.rs", "DirichletFromBeta", "sample_to_slice", sel_assign(["acc"])),
+    ("exp_sample", "exponential.rs", "Exp", "sample", sel_tail),
+    ("weibull_sample", "weibull.rs", "Weibull", "sample", sel_tail),
+    ("pareto_sample", "pareto.rs", "Pareto", "sample", sel_tail),
+    ("gamma_large_sample", "gamma.rs", "GammaLargeShape", "sample", sel_tail),
+    ("gamma_small_sample", "gamma.rs", "GammaSmallShape", "sample", sel_tail),
     ("beta_final_plain", "beta.rs", "Beta", "sample", sel_block_tail_after(["if", "!", "self", ".", "switched_params"])),
     ("beta_final_switched", "beta.rs", "Beta", "sample", sel_block_tail_after(["if", "!", "self", ".", "switched_params"], else_branch=True)),
 ]
